@@ -147,6 +147,22 @@ pub fn check(cx: &Cx, rep: &mut Report) {
             rep.fail(P, "R5", format!("wrong_actor;hk={:?}", o.hk), format!("msg {} submitted through a {:?} derived from actor tag {} was handled by actor tag {}", o.msg, o.hk, o.tag, inv.tag), vec![o.b, inv.i]);
         }
     }
+    // R1 (cont.): "stop from the actor's own context succeeds" means it takes effect - also on a stream-attached actor
+    // whose stream is hot (prefix-safe, see `stop_starvation`)
+    super::stop_starvation("C15", cx, rep);
+    // R3 (cont.): "its timers keep firing" on busy actors too: an `interval` never waits for the mailbox, so the number
+    // of its deliveries is fixed by the clock (the evidence of C10.R2 `interval_count`), e.g. after a tick handler was
+    // cut off by a tolerated handler timeout
+    {
+        let mut sub = Report::default();
+        super::c10::check(cx, &mut sub);
+        if let Some(n) = sub.premises.get("C10.R2.interval_count_on_busy_actor") {
+            rep.premise_n("C15.R3.interval_keeps_firing_on_busy_actor", *n);
+        }
+        for v in sub.violations.into_iter().filter(|v| v.rule == "R2" && v.sig == "interval_count") {
+            rep.fail(P, "R3", "c10:interval_count", v.msg, v.at);
+        }
+    }
     // R2 (cont.): "restart from the actor's own context succeeds" means the restart *happens*, not only that the call
     // returns Ok: every accepted request is followed by a restart (the evidence of C07.R3 `restart_count`)
     {
